@@ -9,10 +9,12 @@ use dlt_core::parse::{dlt_message, ParsedMessage};
 use serde_json::json;
 use std::convert::TryFrom;
 
-fn judge_htyp(htyp: u8, loc: &mut Local) {
+/// mode: 0 plain; 1 behind a storage header; 2 behind a storage header, parsed with a filter whose
+/// ECU id set holds the header's and the storage header's id; 3 no storage header, same filter
+fn judge_htyp(htyp: u8, mode: usize, loc: &mut Local) {
     loc.evals += 1;
     loc.traces += 1;
-    loc.state(htyp as u64, true);
+    loc.state(htyp as u64 | (mode as u64) << 8, true);
     // message with exactly the header fields HTYP announces and an 8-byte payload
     let mut b = vec![htyp, 7, 0, 0];
     if htyp & 0x04 != 0 {
@@ -30,9 +32,20 @@ fn judge_htyp(htyp: u8, loc: &mut Local) {
     b.extend_from_slice(&[9, 0, 0, 0, 1, 2, 3, 4]);
     let n = b.len();
     b[3] = n as u8;
-    let details = || json!({"htyp": htyp, "input_hex": hex(&b)});
+    let storage = mode == 1 || mode == 2;
+    if storage {
+        let mut x = b"DLT\x01\x01\x02\x03\x04\x05\x06\x07\x00STOR".to_vec();
+        x.extend_from_slice(&b);
+        b = x;
+    }
+    let filter = if mode >= 2 {
+        Some(dlt_core::filtering::ProcessedDltFilterConfig { min_log_level: None, app_ids: None, ecu_ids: Some(["ECU1", "STOR"].iter().map(|s| s.to_string()).collect()), context_ids: None, app_id_count: 0, context_id_count: 0 })
+    } else {
+        None
+    };
+    let details = || json!({"htyp": htyp, "mode": mode, "input_hex": hex(&b)});
     loc.transitions += 1;
-    match catch(|| dlt_message(&b, None, false).map(|(rest, pm)| (rest.len(), pm))) {
+    match catch(|| dlt_message(&b, filter.as_ref(), storage).map(|(rest, pm)| (rest.len(), pm))) {
         Ok(Ok((0, ParsedMessage::Item(m)))) => {
             let h = &m.header;
             let expect = (htyp >> 5, htyp & 0x02 != 0, htyp & 0x01 != 0, htyp & 0x04 != 0, htyp & 0x08 != 0, htyp & 0x10 != 0);
@@ -173,8 +186,9 @@ fn judge_type_info(w: u32, loc: &mut Local, count_state: bool) {
 }
 
 pub fn run(ctx: &Ctx) {
+    ctx.enable_trace_pass(ctx.tier.pick(20000u64, 200000u64));
     ctx.set_rule("case = one code value; HTYP and MSIN: all 256 bytes each, through the conversion functions and through a real message; type info: every word of the stated domain, compared with an independent decoder of the bit layout (exactly one of BOOL/SINT/UINT/FLOA/STRG/RAWD among bits 4..10, supported TYLE) and re-encoded in both byte orders; non-trivial = the word is accepted");
-    ctx.run_family(Family::new("c14.htyp", 256, "all 256 HTYP bytes, each in a message with exactly the header fields it announces", |i, loc| judge_htyp(i as u8, loc)));
+    ctx.run_family(Family::new("c14.htyp", 256 * 4, "all 256 HTYP bytes, each in a message with exactly the header fields it announces x {plain, behind a storage header, behind a storage header and parsed with an ECU-id filter that admits it, no storage header with that filter}", |i, loc| judge_htyp(i as u8, (i >> 8) as usize, loc)));
     ctx.run_family(Family::new("c14.msin", 256, "all 256 MSIN bytes through MessageType::try_from / u8::from and through the extended header of a message", |i, loc| judge_msin(i as u8, loc)));
     // history: decoding a word must not depend on the words decoded before (memo tables, negative
     // caches): for ALL ordered pairs (x, y) of patterns of bits 0..12, decode x, then judge y twice
